@@ -463,7 +463,8 @@ func runC19(w *mc.Worker) {
 	}
 
 	// checkHistory replays a history on a fresh real server and judges the last step + the reached state.
-	checkHistory := func(space string, path []int) (stateKey string, ok bool) {
+	checkHistoryP := func(space string, prefix, path []int) (stateKey string, ok bool) {
+		recPath := append(append([]int{}, prefix...), path...)
 		s := newServer()
 		model := map[string]string{}
 		var desc []string
@@ -477,7 +478,7 @@ func runC19(w *mc.Worker) {
 				_, p = s.change(uri)
 				desc = append(desc, fmt.Sprintf("didChange(%s, [])", uri))
 				if p != "" {
-					w.WithPath(space, path, func() {
+					w.WithPath(space, recPath, func() {
 						w.Violation("C19.panic:notification", "the server panicked while handling a notification: "+p, len(path), Case{Script: strings.Join(desc, " ; ")})
 					})
 					return "", false
@@ -500,7 +501,7 @@ func runC19(w *mc.Worker) {
 				desc = append(desc, fmt.Sprintf("didChange(%s, T%d)", uri, op.text))
 			}
 			if p != "" {
-				w.WithPath(space, path, func() {
+				w.WithPath(space, recPath, func() {
 					w.Violation("C19.panic:notification", "the server panicked while handling a notification: "+p, len(path), Case{Script: strings.Join(desc, " ; ")})
 				})
 				return "", false
@@ -611,7 +612,7 @@ func runC19(w *mc.Worker) {
 			}
 		}
 		changed := len(path) > len(model)
-		w.WithPath(space, path, func() {
+		w.WithPath(space, recPath, func() {
 			w.Eval(space+strings.Join(desc, ";"), changed || len(model) > 1, fmt.Sprintf("docs=%d changed=%v ok=%v", len(model), changed, bad == ""))
 			w.Count("queries", int64(queries))
 			if bad != "" {
@@ -622,6 +623,7 @@ func runC19(w *mc.Worker) {
 		})
 		return stateKey, bad == ""
 	}
+	checkHistory := func(space string, path []int) (string, bool) { return checkHistoryP(space, nil, path) }
 
 	// (a1) all histories up to `full`
 	name := fmt.Sprintf("histories-U%d-T%d-H%d", nURI, nText, full)
@@ -731,6 +733,58 @@ func runC19(w *mc.Worker) {
 				}
 			}
 			rec(nil)
+		})
+	}
+
+	// (a4) documents whose URIs a normalising store would conflate: every pair of nine spellings
+	{
+		conf := []string{"file:///w/pay.num", "file:///w/Pay.num", "file:///w/pay%2Enum", "file:///w/pay.num/", "git:/w/pay.num?ref=HEAD", "file:///w/pay.num#L1", "file://host/w/pay.num", "file:///w/./pay.num", "untitled:pay.num"}
+		name4 := "confusable-uris-H2"
+		w.Stage(name4, fmt.Sprintf("all histories of length <= 2 (open / change with two texts) on every pair of %d URIs that differ only in letter case, an escaped character, a trailing slash, scheme / query, fragment, authority, a dot segment: each document keeps its own text", len(conf)), func() {
+			saveOps, saveURIs, saveN, saveNever := ops, uris, nURI, neverOpened
+			defer func() { ops, uris, nURI, neverOpened = saveOps, saveURIs, saveN, saveNever }()
+			nURI = 2
+			neverOpened = "file:///w/never.num"
+			ops = []c19Op{{0, 0, false, false, false}, {0, 1, false, false, false}, {1, 0, false, false, false}, {1, 1, false, false, false}}
+			space := name4 + "/hist"
+			pairOf := func(k int) []string {
+				for i := 0; i < len(conf); i++ {
+					for j := i + 1; j < len(conf); j++ {
+						if k == 0 {
+							return []string{conf[i], conf[j], "file:///w/other.num", neverOpened}
+						}
+						k--
+					}
+				}
+				return nil
+			}
+			nPairs := len(conf) * (len(conf) - 1) / 2
+			if path, ok := w.ReplayPath(space); ok && len(path) > 0 {
+				uris = pairOf(path[0])
+				checkHistoryP(space, path[:1], path[1:])
+				return
+			}
+			if w.IsReplay() {
+				return
+			}
+			for k := 0; k < nPairs; k++ {
+				uris = pairOf(k)
+				var rec func(path []int)
+				rec = func(path []int) {
+					if len(path) > 0 && w.Mine(fmt.Sprint(space, k, path)) {
+						w.Owned()
+						checkHistoryP(space, []int{k}, path)
+						w.Touch()
+					}
+					if len(path) == 2 || w.Expired() {
+						return
+					}
+					for oi := range ops {
+						rec(append(append([]int{}, path...), oi))
+					}
+				}
+				rec(nil)
+			}
 		})
 	}
 
